@@ -1,6 +1,7 @@
 package main
 
 import (
+	"sync/atomic"
 	"bufio"
 	"bytes"
 	"context"
@@ -159,7 +160,12 @@ type RunOpts struct {
 	Pre     map[string]string // files to create before the run (path -> content)
 	Dir     string            // reuse this directory (histories); "" = fresh
 	Keep    bool
+	NoRetry bool // a time-out is the expected outcome: do not confirm it by running again
 }
+
+// timeouts of runs in a fresh directory that did not repeat when the same workflow was run again (a stalled machine,
+// not the workflow): reported in every evidence file
+var timeoutsNotRepeated int64
 
 type RunRes struct {
 	Dir      string
@@ -214,7 +220,27 @@ func newDir() string {
 	return d
 }
 
+// RunWorkflow runs the workflow once; a time-out in a fresh directory is confirmed by running the same workflow
+// again (up to twice): only if it times out every time is the time-out returned. A hang that depends on timing may
+// thus escape one run of a check; a stalled machine no longer looks like a deadlock.
 func RunWorkflow(d *Desc, o RunOpts) *RunRes {
+	res := runWorkflowOnce(d, o)
+	if res.Exit != -2 || o.Dir != "" || o.NoRetry {
+		return res
+	}
+	for k := 0; k < 2; k++ {
+		again := runWorkflowOnce(d, o)
+		if again.Exit != -2 {
+			atomic.AddInt64(&timeoutsNotRepeated, 1)
+			os.RemoveAll(res.Dir)
+			return again
+		}
+		os.RemoveAll(again.Dir)
+	}
+	return res
+}
+
+func runWorkflowOnce(d *Desc, o RunOpts) *RunRes {
 	dir := o.Dir
 	if dir == "" {
 		dir = newDir()
